@@ -1,8 +1,9 @@
 // C13, character classification and C-string part: <etl/cctype.hpp>, <etl/cwctype.hpp>,
 // <etl/cstring.hpp>, <etl/cwchar.hpp>.  cctype over every value in [-1,255] (EOF included),
 // cwctype over [0,0x17F] plus a few large code points, the string functions over every pair of
-// strings of length <= 3 (thorough 4) over the alphabet {a, b, 0x80} (0x80: a negative char /
-// a wide character above the ASCII range).  Pointers are observed as offsets (-1 = null).
+// strings of length <= 3 (thorough: 4 for the read-only two-string functions) over the alphabet
+// {a, b, 0x80} (0x80: a negative char; for wchar_t U+1F600).  Pointers are observed as offsets
+// (-1 = null).
 //
 // mem* (memchr, memcmp, memcpy, memmove, memset) are not constexpr in tetl: API gap, not compared.
 #include "mc.hpp"
@@ -23,10 +24,11 @@ namespace {
 using namespace c13;
 
 #if defined(C13_THOROUGH)
-constexpr int max_len = 4;
+constexpr int max_len = 4; // strcmp/strspn/strcspn/strpbrk/strstr/strlen only; the others stay at 3 (compiler memory)
 #else
 constexpr int max_len = 3;
 #endif
+constexpr int copy_len = 3;
 
 // ------------------------------------------------------------------------------- cctype
 struct CharCode {
@@ -100,7 +102,8 @@ constexpr std::size_t pow3(int n)
     for (int i = 0; i < n; ++i) { r *= 3; }
     return r;
 }
-constexpr std::size_t n_strings = (pow3(max_len + 1) - 1) / 2; // 1 + 3 + 9 + ...
+constexpr std::size_t n_strings      = (pow3(max_len + 1) - 1) / 2; // 1 + 3 + 9 + ...
+constexpr std::size_t n_copy_strings = (pow3(copy_len + 1) - 1) / 2;
 
 template <typename Char>
 struct Str {
@@ -211,17 +214,17 @@ constexpr int off(Char const* base, Char const* p)
 }
 
 /// common parts of the pair kernels: table = all (a, b) pairs x count values [0, NCount)
-template <typename Char, int NCount>
+template <typename Char, int NCount, std::size_t NStr = n_strings>
 struct PairBase {
     using In = Pair<Char>;
-    static constexpr std::size_t N = n_strings * n_strings * NCount;
+    static constexpr std::size_t N = NStr * NStr * NCount;
     static constexpr In in(std::size_t i)
     {
         In p{};
         p.n = int(i % NCount);
         i /= NCount;
-        p.b = nth_string<Char>(i % n_strings);
-        p.a = nth_string<Char>(i / n_strings);
+        p.b = nth_string<Char>(i % NStr);
+        p.a = nth_string<Char>(i / NStr);
         return p;
     }
     static constexpr bool valid(In const&) { return true; }
@@ -254,14 +257,14 @@ struct k_search : PairBase<Char, 1> { // read-only two-string functions
     }
 };
 template <typename Char>
-struct k_ncmp : PairBase<Char, max_len + 2> {
+struct k_ncmp : PairBase<Char, copy_len + 2, n_copy_strings> {
     using In = Pair<Char>;
     using R  = int;
     static std::string subject() { return std::string(CF<Char>::names[2]) + "(" + chname<Char>() + " const*, " + chname<Char>() + " const*, size_t)"; }
     static constexpr R call(In const& p) { return sign(CF<Char>::ncmp(p.a.s, p.b.s, std::size_t(p.n))); }
 };
 template <typename Char>
-struct k_chr : PairBase<Char, 5> { // b unused except as a second haystack; n selects the character
+struct k_chr : PairBase<Char, 5, n_copy_strings> { // b unused except as a second haystack; n selects the character
     using In = Pair<Char>;
     using R  = std::array<int, 4>;
     static std::string subject() { return std::string(CF<Char>::names[3]) + "/" + CF<Char>::names[4] + "(" + chname<Char>() + " const*, int)"; }
@@ -272,12 +275,12 @@ struct k_chr : PairBase<Char, 5> { // b unused except as a second haystack; n se
         return R{off(p.a.s, F::chr(p.a.s, ch(p.n))), off(p.a.s, F::rchr(p.a.s, ch(p.n))), off(p.b.s, F::chr(p.b.s, ch(p.n))),
             off(p.b.s, F::rchr(p.b.s, ch(p.n)))};
     }
-    static std::string show(In const& p) { return PairBase<Char, 5>::show(p) + " ch=" + std::to_string(ch(p.n)); }
+    static std::string show(In const& p) { return PairBase<Char, 5, n_copy_strings>::show(p) + " ch=" + std::to_string(ch(p.n)); }
 };
 template <typename Char>
-struct k_copy : PairBase<Char, max_len + 2> { // writing functions; destination: 16 elements pre-filled with 'x'
+struct k_copy : PairBase<Char, copy_len + 2, n_copy_strings> { // writing functions; destination: 16 elements pre-filled with 'x'
     using In = Pair<Char>;
-    using R  = std::array<int, 4 * 17>;
+    using R  = std::array<long long, 8>;
     static std::string subject() { return std::string(CF<Char>::names[9]) + "/ncpy/cat/ncat(" + chname<Char>() + "*, " + chname<Char>() + " const*[, size_t])"; }
     static constexpr R call(In const& p)
     {
@@ -297,12 +300,14 @@ struct k_copy : PairBase<Char, max_len + 2> { // writing functions; destination:
         }
         auto* r2 = F::cat(d[2], p.b.s);
         auto* r3 = F::ncat(d[3], p.b.s, std::size_t(p.n));
-        out[0]   = int(r0 - d[0]);
-        out[17]  = int(r1 - d[1]);
-        out[34]  = int(r2 - d[2]);
-        out[51]  = int(r3 - d[3]);
-        for (int j = 0; j < 4; ++j) {
-            for (int k = 0; k < 16; ++k) { out[std::size_t(j * 17 + 1 + k)] = int(d[j][k]); }
+        out[0]   = r0 - d[0];
+        out[1]   = r1 - d[1];
+        out[2]   = r2 - d[2];
+        out[3]   = r3 - d[3];
+        for (int j = 0; j < 4; ++j) { // the whole destination buffer, positionally
+            unsigned long long h = 1469598103934665603ULL;
+            for (int k = 0; k < 16; ++k) { h = (h ^ static_cast<unsigned long long>(static_cast<long long>(d[j][k]))) * 1099511628211ULL; }
+            out[std::size_t(4 + j)] = static_cast<long long>(h);
         }
         return out;
     }
